@@ -1,5 +1,181 @@
-"""C15.dispatch (placeholder until the data-flow check of the constructors lands)."""
+"""C15.dispatch: whichever kernel the run-time CPU dispatch selects is built
+from the same table — data-flow over symbolic arguments on the MIR of
+`make_interpolator` and of the three `::new` constructors: the argument
+tuples reaching `make_sincs` are identical terms."""
+import re, time
+import z3
+from .interp import Interp, RealDom, State, Ref, SliceRef, VecObj, Variant, Struct, Unmodelled, UB
+from . import models
+
+
+class Opaque:
+    def __init__(self, name):
+        self.name = name
+
+    def __repr__(self):
+        return "<%s>" % self.name
+
+
+class DInterp(Interp):
+    """Interpreter with recording models for the callees of interest."""
+
+    def __init__(self, prog, feature_missing=False):
+        super().__init__(prog, RealDom(), resolver=None)
+        self.calls = []       # (callee, args)
+        self.feature_missing = feature_missing
+
+    def const(self, s, hint=None):
+        s = s.strip()
+        if s.startswith("{alloc"):
+            return Ref([SliceRef([Opaque("CpuFeature0"), Opaque("CpuFeature1")], 0, 2)], 0)
+        if s.startswith('"'):
+            return Opaque("str")
+        return super().const(s, hint)
+
+    def rvalue(self, s, st, d, body):
+        s2 = s.strip()
+        if s2.startswith("{closure@"):
+            return Opaque("closure")
+        m = re.match(r"^(MissingCpuFeature)\((.*)\)$", s2)
+        if m:
+            return Struct("MissingCpuFeature", [self.operand(m.group(2), st, d)])
+        return super().rvalue(s, st, d, body)
+
+    def builtin(self, callee, args, st):
+        c = re.sub(r"<impl at [^>]*>", "<impl>", callee)
+        if re.search(r"Iterator>::find::<", c):
+            self.models_used.add("Iterator::find over FEATURES -> %s" % ("Some(feature missing)" if self.feature_missing else "None (all detected)"))
+            if self.feature_missing:
+                return True, Variant("Some", 1, [Ref([Opaque("CpuFeature0")], 0)])
+            return True, Variant("None", 0, [])
+        if re.match(r"^make_sincs::<T>$", c):
+            self.models_used.add("make_sincs -> recorded, returns an opaque table")
+            self.calls.append(("make_sincs", list(args)))
+            return True, VecObj([], tag="table")
+        if re.search(r"(Avx|Sse|Neon)Sample>::pack_sincs$", c):
+            self.models_used.add("pack_sincs -> opaque (decided separately by C15.value)")
+            return True, Opaque("packed")
+        m = re.match(r"^(AvxInterpolator|SseInterpolator|ScalarInterpolator)::<T>::new$", c)
+        if m:
+            self.models_used.add("%s::new -> recorded; Avx/Sse report a missing feature so that every branch of the dispatch is visited" % m.group(1))
+            self.calls.append((m.group(1) + "::new", list(args)))
+            if m.group(1) == "ScalarInterpolator":
+                return True, Opaque("scalar")
+            return True, Variant("Err", 1, [Opaque("missing")])
+        if re.match(r"^Box::<.*>::new$", c):
+            self.models_used.add("Box::new identity")
+            return True, args[0]
+        if c.startswith("Arguments::<") or c == "panic_fmt":
+            raise UB("panic path")
+        if re.match(r"^std::f32::<impl f32>::ceil$", c):
+            v = z3.simplify(args[0])
+            if z3.is_rational_value(v):
+                import math
+                q = v.as_fraction()
+                self.models_used.add("f32::ceil on a concrete rational")
+                return True, z3.RealVal(math.ceil(q))
+            raise Unmodelled("ceil of a symbolic real")
+        return models.call(self, callee, args, st)
+
+
+def same(a, b):
+    if isinstance(a, Opaque) or isinstance(b, Opaque):
+        return a is b
+    if z3.is_expr(a) and z3.is_expr(b):
+        return z3.eq(z3.simplify(a), z3.simplify(b))
+    return a == b
 
 
 def check(prog):
-    return [], []
+    obs = []
+    used = set()
+    fc = z3.Real("f_cutoff")
+    win = Opaque("window")
+    # --- the three constructors pass their own arguments through unchanged
+    ctors = [("avx", r"^sinc_interpolator_avx::<impl>::new$"), ("sse", r"^sinc_interpolator_sse::<impl>::new$"),
+             ("scalar", r"^sinc_interpolator::<impl>::new$")]
+    tuples = {}
+    for label, nre in ctors:
+        t0 = time.time()
+        ob = dict(id="C15.dispatch.table_args." + label, function=None, verdict=None, detail="", region="base", kind="obligation")
+        try:
+            body = [b for b in prog.find(nre) if len(b.params) == 4][0]
+            ob["function"] = body.short()
+            ok = True
+            for L, f in ((8, 1), (16, 3), (24, 2)):
+                I = DInterp(prog)
+                st = State()
+                leaves = list(I.run(body, [L, f, fc, win], st))
+                used |= I.models_used
+                ms = [c for c in I.calls if c[0] == "make_sincs"]
+                if len(leaves) != 1 or len(ms) != 1:
+                    ok = False
+                    ob["detail"] = "expected one path and one make_sincs call, got %d / %d" % (len(leaves), len(ms))
+                    break
+                a = ms[0][1]
+                if not (a[0] == L and a[1] == f and same(a[2], fc) and a[3] is win):
+                    ok = False
+                    ob["detail"] = "make_sincs receives %r for constructor arguments (%d, %d, f_cutoff, window)" % (a, L, f)
+                    break
+                tuples[(label, L, f)] = a
+            ob["verdict"] = "holds" if ok else "violated"
+        except (Unmodelled, LookupError, IndexError) as e:
+            ob["verdict"] = "inconclusive"
+            ob["detail"] = "%s: %s" % (type(e).__name__, e)
+        except UB as e:
+            ob["verdict"] = "violated"
+            ob["detail"] = "UB/panic on the construction path: %s" % e
+        ob["solver_s"] = round(time.time() - t0, 3)
+        obs.append(ob)
+    # --- make_interpolator hands the same tuple to every candidate kernel
+    t0 = time.time()
+    ob = dict(id="C15.dispatch.make_interpolator", function=None, verdict=None, detail="", region="base", kind="obligation")
+    try:
+        body = prog.one(r"^make_interpolator$")
+        ob["function"] = body.short()
+        ok = True
+        for sinc_len in (8, 20, 64):
+            for ratio_ge_1 in (True, False):
+                I = DInterp(prog)
+                st = State()
+                ratio = z3.Real("resample_ratio")
+                st.pc.append(ratio >= 1 if ratio_ge_1 else z3.And(ratio > 0, ratio < 1))
+                leaves = list(I.run(body, [sinc_len, ratio, fc, 4, win], st))
+                used |= I.models_used
+                news = [c for c in I.calls if c[0].endswith("::new")]
+                names = [c[0] for c in news]
+                if len(leaves) != 1 or names != ["AvxInterpolator::new", "SseInterpolator::new", "ScalarInterpolator::new"]:
+                    ok = False
+                    ob["detail"] = "paths %d, constructor calls %s" % (len(leaves), names)
+                    break
+                a0 = news[0][1]
+                for c in news[1:]:
+                    if not all(same(x, y) for x, y in zip(a0, c[1])):
+                        ok = False
+                        ob["detail"] = "candidate kernels receive different arguments: %r vs %r" % (a0, c[1])
+                if a0[0] % 8 != 0 or a0[0] < sinc_len or a0[0] >= sinc_len + 8:
+                    ok = False
+                    ob["detail"] = "sinc_len %d rounded to %r" % (sinc_len, a0[0])
+            if not ok:
+                break
+        ob["verdict"] = "holds" if ok else "violated"
+    except (Unmodelled, LookupError) as e:
+        ob["verdict"] = "inconclusive"
+        ob["detail"] = "%s: %s" % (type(e).__name__, e)
+    except UB as e:
+        ob["verdict"] = "violated"
+        ob["detail"] = "UB/panic: %s" % e
+    ob["solver_s"] = round(time.time() - t0, 3)
+    obs.append(ob)
+    return obs, sorted(used)
+
+
+if __name__ == "__main__":
+    import json
+    from .mir import dump_mir, Program
+    path, key = dump_mir()
+    prog = Program(path)
+    obs, used = check(prog)
+    for o in obs:
+        print(json.dumps(o, default=str))
+    print(used)
